@@ -4,6 +4,9 @@ C03W — scripted operations, events, `step`, `simulateInit`, `runLoop`.
 import SimProc.Proofs.C03WOps
 import SimProc.Proofs.WorldPres
 import SimProc.Proofs.C11WStatic
+import SimProc.Proofs.C03YRewire
+import SimProc.Proofs.C03YIni
+import SimProc.Proofs.C03YSwrW
 namespace SimProc
 namespace C03W
 open World FloorCoreL C03
@@ -93,7 +96,8 @@ theorem targets_set_dev (l : List Target) (i : Nat) (ps : List (Int × Int × In
       l.map (fun t => ({ dev := t.dev } : Target)) :=
   map_set_of_eq _ l i _ default rfl
 
-theorem G.applyOpG {E N : List Nat} {w : World} (h : G E N [] w) (op : Op) (hop : OpSC w op) :
+theorem G.applyOpG {E N : List Nat} {w : World} (h : G E N [] w) (op : Op) (hop : OpSC w op)
+    (hi : IOK w) (hm : ∃ l ∈ w.scripts, op ∈ l) :
     G E N [] (w.applyOp op).1 := by
   have hnoaid : ∀ a : Int, (∀ d ∈ w.devs, d.aid ≠ a) →
       ∀ d p, holdsD (w.dev d) = some p → d ∉ E → (w.dev d).aid ≠ a :=
@@ -176,7 +180,7 @@ theorem G.applyOpG {E N : List Nat} {w : World} (h : G E N [] w) (op : Op) (hop 
     · exact h.modDev_irrel d (fun x => { x with cycle := c }) rfl rfl (fun _ => rfl) rfl (fun _ => rfl) rfl
   | offsetNext d o =>
     exact h.modDev_irrel d (fun x => { x with offset := x.offset + o }) rfl rfl (fun _ => rfl) rfl (fun _ => rfl) rfl
-  | rewire d ups => exact absurd hop id
+  | rewire d ups => exact h.rewireG d ups hop hm (fun z hz => hi.inited hm hz)
   | workOrder m tgt tag info =>
     simp only [World.applyOp]
     generalize w.targetParams tgt tag = tp
@@ -216,27 +220,34 @@ theorem SC.scriptOp {w : World} (h : SC w) {l : List Op} (hl : l ∈ w.scripts) 
     OpSC w op :=
   opSC_of_sw w op (h.s.scripts l hl op hop)
 
-theorem G.applyOpsG {E N : List Nat} : ∀ (ops : List Op) {w : World}, G E N [] w →
+theorem opSC_not_create {w : World} {op : Op} (h : OpSC w op) : ∀ sp, op ≠ .create sp := by
+  cases op <;> first
+    | exact absurd h id
+    | exact fun _ hh => Op.noConfusion hh
+
+theorem G.applyOpsG {E N : List Nat} : ∀ (ops : List Op) {w : World}, G E N [] w → IOK w →
     (∀ op ∈ ops, ∃ l ∈ w.scripts, op ∈ l) → G E N [] (w.applyOps ops) := by
   intro ops
   induction ops with
-  | nil => intro w h _; exact h
+  | nil => intro w h _ _; exact h
   | cons op ops ih =>
-    intro w h hops
+    intro w h hi hops
     unfold World.applyOps
     simp only [List.foldl_cons]
     obtain ⟨l, hl, hop⟩ := hops op (List.mem_cons_self ..)
-    have h1 := (h.applyOpG op (h.sc.scriptOp hl hop)).addRes (w.applyOp op).2
+    have hsc := h.sc.scriptOp hl hop
+    have h1 := (h.applyOpG op hsc hi ⟨l, hl, hop⟩).addRes (w.applyOp op).2
     have hscr : ((w.applyOp op).1.addRes (w.applyOp op).2).scripts = w.scripts :=
       C02V.scr_applyOp w op
-    have := ih h1 (fun o ho => by rw [hscr]; exact hops o (List.mem_cons_of_mem _ ho))
+    have := ih h1 (hi.step (istep_applyOp w op (opSC_not_create hsc)))
+      (fun o ho => by rw [hscr]; exact hops o (List.mem_cons_of_mem _ ho))
     unfold World.applyOps at this
     exact this
 
-theorem G.runScriptG {E N : List Nat} {w : World} (h : G E N [] w) (k : Nat) :
+theorem G.runScriptG {E N : List Nat} {w : World} (h : G E N [] w) (hi : IOK w) (k : Nat) :
     G E N [] (w.runScript k) := by
   unfold World.runScript
-  refine G.applyOpsG _ h (fun op hop => ?_)
+  refine G.applyOpsG _ h hi (fun op hop => ?_)
   by_cases hk : k < w.scripts.length
   · have e : w.scripts.getD k [] = w.scripts[k] := by simp [List.getD_eq_getElem?_getD, hk]
     rw [e] at hop
@@ -272,51 +283,29 @@ theorem hasRes_of_sd {w w' : World} (h : C02V.sd w' = C02V.sd w) : hasRes w' = h
     rfl
   rw [key, key, h]
 
-theorem opSC_not_rewire {w : World} {op : Op} (h : OpSC w op) :
-    (∀ d ups, op ≠ .rewire d ups) ∧ (∀ sp, op ≠ .create sp) := by
-  cases op <;> first
-    | exact absurd h id
-    | exact ⟨fun _ _ hh => Op.noConfusion hh, fun _ hh => Op.noConfusion hh⟩
+theorem SC.nc {w : World} (h : SC w) : NC w :=
+  fun l hl op hop => opSC_not_create (h.scriptOp hl hop)
 
-theorem sd_applyOps_nr : ∀ (ops : List Op) (w : World),
-    (∀ op ∈ ops, (∀ d ups, op ≠ .rewire d ups) ∧ (∀ sp, op ≠ .create sp)) →
-    C02V.sd (w.applyOps ops) = C02V.sd w := by
-  intro ops
-  induction ops with
-  | nil => intro w _; rfl
-  | cons op ops ih =>
-    intro w hops
-    unfold World.applyOps
-    simp only [List.foldl_cons]
-    have h1 := hops op (List.mem_cons_self ..)
-    have := ih ((w.applyOp op).1.addRes (w.applyOp op).2)
-      (fun o ho => hops o (List.mem_cons_of_mem _ ho))
-    unfold World.applyOps at this
-    rw [this]
-    exact (C02V.sd_addRes _ _).trans (C02V.sd_applyOp w op h1.1 h1.2)
-
-theorem sd_runScript_SC {w : World} (hs : SC w) (k : Nat) :
-    C02V.sd (w.runScript k) = C02V.sd w := by
-  unfold World.runScript
-  exact sd_applyOps_nr _ w (fun op hop => opSC_not_rewire (hs.script k op hop))
+theorem hasRes_runScript_SC {w : World} (hs : SC w) (k : Nat) :
+    hasRes (w.runScript k) = hasRes w :=
+  hasRes_of_swr (swrw_runScript w k hs.nc).1
 
 /-- one served request of the availability check: call back, then remove the entry -/
-theorem G.scanStepG {E N : List Nat} {w : World} (h : G E N [] w) {i : Nat} {req : Req} {cb : Cb}
-    (hi : w.rm.waiting[i]? = some (req, cb)) :
+theorem G.scanStepG {E N : List Nat} {w : World} (h : G E N [] w) (hio : IOK w) {i : Nat} {req : Req}
+    {cb : Cb} (hi : w.rm.waiting[i]? = some (req, cb)) :
     G E N [] (scanOps.erase (scanOps.call w cb req) i) := by
   rcases h.wr with hn | hreg
   · -- no requirement anywhere: the waiting list is irrelevant
     have h1 : G E N [] (scanOps.call w cb req) := by
       cases cb with
-      | script k => exact (h.addRes (.cb k)).runScriptG k
+      | script k => exact (h.addRes (.cb k)).runScriptG (hio.step (istep_addRes w _)) k
       | proc d => exact h.procResourceCbG d
     refine h1.withRmWR _ (Or.inl ?_)
     show hasRes (scanOps.call w cb req) = false
     rw [← hn]
-    apply hasRes_of_sd
     cases cb with
-    | script k => exact sd_runScript_SC (w := w.addRes (.cb k)) (h.addRes (.cb k)).sc k
-    | proc d => exact C02V.sd_procResourceCb w d
+    | script k => exact hasRes_runScript_SC (w := w.addRes (.cb k)) (h.addRes (.cb k)).sc k
+    | proc d => exact hasRes_of_sd (C02V.sd_procResourceCb w d)
   · obtain ⟨x, hx⟩ := hreg.1 (req, cb) (List.mem_of_getElem? hi)
     dsimp only at hx
     subst hx
@@ -355,21 +344,21 @@ theorem G.scanStepG {E N : List Nat} {w : World} (h : G E N [] w) {i : Nat} {req
         rw [dev_of_length_le (by rw [hl]; exact hf)] at hy'
         cases hy'
 
-theorem G.scanG {E N : List Nat} (n : Nat) : ∀ {w : World} (i : Nat), G E N [] w →
+theorem G.scanG {E N : List Nat} (n : Nat) : ∀ {w : World} (i : Nat), G E N [] w → IOK w →
     G E N [] (scanWaiting scanOps n w i) := by
   induction n with
-  | zero => intro w i h; exact h
+  | zero => intro w i h _; exact h
   | succ n ih =>
-    intro w i h
+    intro w i h hio
     unfold scanWaiting
     split
     · exact h
     · split
-      · next req cb hi _ => exact ih i (h.scanStepG hi)
-      · exact ih _ h
+      · next req cb hi _ => exact ih i (h.scanStepG hio hi) (hio.step (istep_scanStep w cb req i))
+      · exact ih _ h hio
 
-theorem G.rmCheckG {E N : List Nat} {w : World} (h : G E N [] w) : G E N [] w.rmCheck :=
-  G.scanG _ _ h
+theorem G.rmCheckG {E N : List Nat} {w : World} (h : G E N [] w) (hio : IOK w) : G E N [] w.rmCheck :=
+  G.scanG _ _ h hio
 
 theorem target_dev_proc {w : World} (hs : SC w) (tgt d : Nat)
     (hd : (w.targets.getD tgt default).dev = some d) : (w.dev d).kind = .processor := by
@@ -382,27 +371,27 @@ theorem target_dev_proc {w : World} (hs : SC w) (tgt d : Nat)
       simp [List.getD_eq_getElem?_getD, Nat.le_of_not_lt ht]
     rw [e] at hd; cases hd
 
-theorem G.hookStartG {E N : List Nat} {w : World} (h : G E N [] w) (tgt : Nat) (tag : Int) :
-    G E N [] (w.hookStart tgt tag) := by
+theorem G.hookStartG {E N : List Nat} {w : World} (h : G E N [] w) (hio : IOK w) (tgt : Nat)
+    (tag : Int) : G E N [] (w.hookStart tgt tag) := by
   unfold World.hookStart
   dsimp only
   split
   · next d hd => exact (h.addRes _).shutdownDevG d (target_dev_proc h.sc tgt d hd) false none
   · split
-    · exact (h.addRes _).runScriptG _
+    · exact (h.addRes _).runScriptG (hio.step (istep_addRes w _)) _
     · exact h.addRes _
 
-theorem G.hookEndG {E N : List Nat} {w : World} (h : G E N [] w) (tgt : Nat) (tag : Int) :
-    G E N [] (w.hookEnd tgt tag) := by
+theorem G.hookEndG {E N : List Nat} {w : World} (h : G E N [] w) (hio : IOK w) (tgt : Nat)
+    (tag : Int) : G E N [] (w.hookEnd tgt tag) := by
   unfold World.hookEnd
   dsimp only
   split
   · next d hd => exact (h.addRes _).restoreDevG d (target_dev_proc h.sc tgt d hd)
   · split
-    · exact (h.addRes _).runScriptG _
+    · exact (h.addRes _).runScriptG (hio.step (istep_addRes w _)) _
     · exact h.addRes _
 
-theorem G.startWorkG {E N : List Nat} {w : World} (h : G E N [] w) (m seq : Nat) :
+theorem G.startWorkG {E N : List Nat} {w : World} (h : G E N [] w) (hio : IOK w) (m seq : Nat) :
     G E N [] (w.startWork m seq) := by
   unfold World.startWork
   split
@@ -415,18 +404,19 @@ theorem G.startWorkG {E N : List Nat} {w : World} (h : G E N [] w) (m seq : Nat)
     obtain ⟨u1, u2, cost⟩ := tp2
     dsimp only
     refine G.schedLib ?_ _ _ (Action.finishWork m seq) _ (fun d hd => Action.noConfusion hd)
-    apply G.hookStartG
-    apply G.modMaintG
-    exact h.addRec _
+    refine G.hookStartG ?_ ?_ _ _
+    · apply G.modMaintG
+      exact h.addRec _
+    · exact (hio.step (istep_addRec w _)).step (istep_modMaint _ _ _)
 
-theorem G.finishWorkG {E N : List Nat} {w : World} (h : G E N [] w) (m seq : Nat) :
+theorem G.finishWorkG {E N : List Nat} {w : World} (h : G E N [] w) (hio : IOK w) (m seq : Nat) :
     G E N [] (w.finishWork m seq) := by
   unfold World.finishWork
   split
   · exact h.setErr _
   · next o _ =>
     dsimp only
-    have h1 := h.hookEndG o.target o.tag
+    have h1 := h.hookEndG hio o.target o.tag
     generalize w.hookEnd o.target o.tag = w1 at h1 ⊢
     apply G.startOrdersG
     apply G.modMaintG
@@ -451,18 +441,18 @@ theorem exemptOf_dead {e : Event} (h : e.live = false) : exemptOf e = [] := by
 /-- **Every event action preserves the invariant** (a failure must target a processor; if batchers
 or batches exist, the conservation invariant of C02 holds and the batchers are settled). -/
 theorem G.execG {w : World} (a : Action) (h : G (exemptA a) [] [] w)
-    (ha : ∀ d, a = .fail d → (w.dev d).kind = .processor) (hI : InvB w) (hset : Settled w) :
-    G [] [] [] (w.exec a) := by
+    (ha : ∀ d, a = .fail d → (w.dev d).kind = .processor) (hI : InvB w) (hset : Settled w)
+    (hio : IOK w) : G [] [] [] (w.exec a) := by
   cases a with
   | terminate => exact h
-  | script k => exact h.runScriptG k
+  | script k => exact h.runScriptG hio k
   | finishCycle d => exact h.finishCycle d
   | passPart d => exact h.passPartG hI hset
   | fail d => exact h.failDevG d (ha d rfl)
   | releaseIfIdle d => exact h.releaseIfIdleG d
-  | rmCheck => exact h.rmCheckG
-  | startWork m o => exact h.startWorkG m o
-  | finishWork m o => exact h.finishWorkG m o
+  | rmCheck => exact h.rmCheckG hio
+  | startWork m o => exact h.startWorkG hio m o
+  | finishWork m o => exact h.finishWorkG hio m o
   | schedUpdate s => exact h.schedUpdateG s true
   | periodicSense s => exact h.periodicSenseG s
   | unknown n => exact h.setErr _
@@ -474,7 +464,7 @@ theorem settled_env {w : World} (h : Settled w) (env' : Env) : Settled { w with 
 
 /-- **One step of the event loop preserves the invariant.** -/
 theorem G.stepG {w w' : World} {e : Event} (h : G [] [] [] w) (hI : InvB w) (hset : Settled w)
-    (hst : w.step = some (e, w')) : G [] [] [] w' := by
+    (hio : IOK w) (hst : w.step = some (e, w')) : G [] [] [] w' := by
   unfold World.step at hst
   split at hst
   · cases hst
@@ -487,6 +477,7 @@ theorem G.stepG {w w' : World} {e : Event} (h : G [] [] [] w) (hI : InvB w) (hse
     · next hl =>
       rw [exemptOf_live hl] at hpop
       refine hpop.execG _ (fun d hd => ?_) (invB_env hI env') (settled_env hset env')
+        (hio.step (istep_env w env'))
       exact h.ev e0.act ((C02V.mem_acts _ _).mpr ⟨e0, Or.inl hmem, rfl⟩) d hd
     · next hl =>
       rw [exemptOf_dead (by simpa using hl)] at hpop
